@@ -1,4 +1,5 @@
 """C01 Alignment integrity: every input sequence is reproduced exactly."""
+import random
 import re
 
 from hypothesis import strategies as st
@@ -44,10 +45,19 @@ def cases(draw, tier):
     elif size == "l":
         # >= 100 sequences (k-means) or >= 500 columns (parallel Hirschberg)
         k, alpha = draw(gen.alphabets())
-        if draw(st.booleans()):
+        pick = draw(st.integers(0, 2))
+        if pick == 0:
             seqs = draw(gen.big_family(alpha, min_n=100, max_n=160, max_len=60))
-        else:
+        elif pick == 1:
             seqs = draw(gen.big_family(alpha, min_n=2, max_n=5, max_len=900))
+        else:
+            # >= 100 copies of one sequence (even and odd counts: groups no clustering step can separate) plus a few variants
+            # that force gap columns
+            rnd = random.Random(draw(st.integers(0, 2 ** 32 - 1)))
+            base = "".join(rnd.choice(alpha) for _ in range(draw(st.integers(5, 60))))
+            seqs = [base] * draw(st.integers(100, 310))
+            for _ in range(draw(st.integers(1, 7))):
+                seqs.insert(draw(st.integers(0, len(seqs))), gen.mutate(rnd, base, alpha, 0.05, 0.1, 0.05) or base)
         ss = {"kind": gen.expected_kind(seqs), "seqs": seqs, "shape": "large"}
     else:
         k, alpha = draw(gen.alphabets())
